@@ -374,6 +374,19 @@ func (s *sut) statement(o, prev *Obs, st Step, got string, full bool) []finding 
 			}
 		}
 	}
+	// Nonce(addr) is one above the highest offered nonce of the account, or the state nonce when nothing is
+	// offered (the pool promotes from this number: a stale-high value opens a nonce gap with the next submission).
+	// Attributed to the operation after which it arises.  Named deviation: after a reorganisation that left a hole
+	// (known finding gap-free:after-ro) the truncation of the holed list leaves it wrong -- counted, not reported.
+	for a := 1; a <= len(o.N) && a <= len(o.CN); a++ {
+		if msg := nonceRelation(o, a); msg != "" && nonceRelation(prev, a) == "" {
+			if s.sawRo {
+				s.nonceAfterRo++
+				continue
+			}
+			bad("nonce-next-pending:after-"+op, "%s", msg)
+		}
+	}
 	// The queue limits are read strictly (they are configured limits and the statement exempts only
 	// local senders).  A violation is attributed to the operation after which it ARISES or grows, and
 	// only in quiescent states (no promotion run owed): sig ...:after-<op>.
@@ -518,19 +531,22 @@ func fullBefore(prev *Obs, c *Config, sub ...Tx) bool {
 	return uint64(n+need) > c.GlobalSlots+c.GlobalQueue
 }
 
-// Nonce(addr) = first nonce the pool does not offer (kept in lock-step, not part of the statement)
-func (s *sut) nonceTracks(o *Obs) string {
-	per := map[int]int{}
-	for _, t := range o.P {
-		per[t.A]++
+// nonceRelation: "" if in observation x Nonce(a) = highest offered nonce + 1 (state nonce if nothing is offered)
+func nonceRelation(x *Obs, a int) string {
+	if x == nil || a-1 >= len(x.N) || a-1 >= len(x.CN) {
+		return ""
 	}
-	for i := range s.w.addrs {
-		if i >= len(o.N) {
-			break
+	want, n := x.CN[a-1], 0
+	for _, t := range x.P {
+		if t.A == a {
+			n++
+			if t.N+1 > want {
+				want = t.N + 1
+			}
 		}
-		if want := int(s.chain.nonce[i]) + per[i+1]; o.N[i] != want {
-			return fmt.Sprintf("Nonce(account %d) = %d, state nonce + pending = %d", i+1, o.N[i], want)
-		}
+	}
+	if x.N[a-1] != want {
+		return fmt.Sprintf("Nonce(account %d) = %d, but the state nonce is %d and %d transactions are offered up to nonce %d", a, x.N[a-1], x.CN[a-1], n, want-1)
 	}
 	return ""
 }
